@@ -114,20 +114,37 @@ def _arm_result(f, arm_body, bind, v, push_names=("push",)):
 
 
 def byte_table(f, fn, rule, domain=range(256)):
-    b, m = _byte_loop_match(f, fn, rule)
-    scrut = T.strip(m["scrut"])["name"]
-    rows, rest = T.int_match_table(m, list(domain))
-    table = {}
-    site = {}
-    for vals, bind, guard, body, arm in rows:
-        for v in vals:
-            if guard is not None:
-                table[v] = ("undecidable", "guarded arm")
-                continue
-            env_bind = bind
-            res = _arm_result_with_scrut(f, body, bind, scrut, v)
-            table[v] = res
-            site[v] = T.span_str(arm["span"])
+    """per-byte decoder `for ch in bytes.. { <body> }`: the loop body folded for every byte value:
+    ('push', code point) | ('err', variant) | ..; independent of whether the arms push or yield a value that is pushed"""
+    b = f.thir.get(fn)
+    need(b, rule, fn)
+    loop = None
+    for m in T.exprs(b["body"], "Match"):
+        fl = T.for_loop_parts(m)
+        if fl and fl[1].get("k") == "Bind" and fl[1].get("ty") in ("u8", "char", "&u8"):
+            loop = fl
+            break
+    need(loop is not None, rule, fn, "(no `for ch in bytes` loop)")
+    var = loop[1]["name"]
+    inner = [m for m in T.exprs(loop[2], "Match") if m.get("source") == "Normal"]
+    table, site, rest = {}, {}, set()
+    for v in domain:
+        res = _arm_result_with_scrut(f, loop[2], None, var, v)
+        if res[0] == "undecidable" and "no arm matched" in res[1]:
+            rest.add(v)
+        table[v] = res
+        # diagnostic position: the arm of the (first) match on the byte that covers v
+        for m in inner:
+            sc = T.strip(m["scrut"])
+            if sc.get("k") == "Var" and sc["name"] == var:
+                for arm in m["arms"]:
+                    try:
+                        if T.pat_values(arm["pat"], [v]):
+                            site[v] = T.span_str(arm["span"])
+                            break
+                    except Exception:
+                        break
+                break
     return b, table, site, rest
 
 
@@ -308,28 +325,61 @@ def tab_dispatch(ctx):
                       "ECI %d is decoded as ISO-8859-1 (latin1_to_utf8_mut)" % v, site=T.span_str(armsx[v][1]["span"]), detail=callees.get(v)))
     obs.append(Ob(r, "eci:11", has(11, "decode_iso_8859_9") and only_transformers(11, ["decode_iso_8859_9"]), "ECI 11 is decoded as ISO-8859-9", detail=callees.get(11)))
     obs.append(Ob(r, "eci:13", has(13, "decode_iso_8859_11") and only_transformers(13, ["decode_iso_8859_11"]), "ECI 13 is decoded as ISO-8859-11", detail=callees.get(13)))
-    # 26: from_utf8 of the chunk pushed unchanged
-    for v, extra in ((26, []), (27, ["is_ascii"])):
+    # 26 / 27: the arm is folded against a model of from_utf8 / is_ascii: what is pushed, and what is returned
+    pn = [p_["pat"]["name"] for p_ in b["params"] if p_.get("pat", {}).get("k") == "Bind"]
+    need(len(pn) == 3, r, fn, "(parameters bytes, eci, out)")
+
+    def arm_run(v, utf8_ok, ascii_ok):
+        pushed = []
+
+        def res(ok, val):
+            return {"__adt__": "core::result::Result", "__variant__": "Ok" if ok else "Err", "#0": val, "0": val}
+
+        def on_call(folder, c):
+            cc = T.canon(T.callee_of(c))
+            last = cc.split("::")[-1]
+            if cc.endswith("str::from_utf8") or cc.endswith("str::converts::from_utf8"):
+                a = folder.fold(c["args"][0])
+                return res(utf8_ok, T.Token("str(%s)" % a) if utf8_ok else T.Token("Utf8Error"))
+            if last == "is_ascii":
+                a = folder.fold(c["args"][0])
+                return ascii_ok if a == "bytes" else NotImplemented
+            if cc.endswith("String::push_str"):
+                pushed.append(folder.fold(c["args"][1]))
+                return None
+            if cc.endswith("Result::or") and len(c["args"]) == 2:
+                a = folder.fold(c["args"][0])
+                return a if a.get("__variant__") == "Ok" else folder.fold(c["args"][1])
+            if cc.endswith("Result::map_err") and len(c["args"]) == 2:
+                a = folder.fold(c["args"][0])
+                if a.get("__variant__") == "Ok":
+                    return a
+                cl = folder.fold(c["args"][1])
+                return res(False, folder.apply_closure(cl, [a.get("#0")]))
+            return NotImplemented
+        env = {pn[0]: T.Token("bytes"), pn[1]: v, pn[2]: T.Token("out")}
+        out = T.Folder(f, env=env, on_call=on_call, effects=True).run(armsx[v][0])
+        err = None
+        if isinstance(out, dict) and out.get("__variant__") == "Err":
+            e0 = out.get("#0")
+            err = e0.get("__variant__") if isinstance(e0, dict) else str(e0)
+        return pushed, err
+    for v in (26, 27):
         body, arm, nodes = armsx[v]
-        e = [T.sx(c) for n in nodes for c in T.calls(n) if T.canon(T.callee_of(c)).endswith("String::push_str")]
-        ok = len(e) >= 1 and only_transformers(v, [])
-        for pe in e:
-            fu = T.sx_calls(pe, "str::from_utf8")
-            ok = ok and len(fu) == 1 and fu[0][2][0][0] == "var" and fu[0][2][0][1] in ("bytes", "chunk", "b", "raw")
-        for x in extra:
-            ok = ok and has(v, x)
-        if v == 27:
-            # the push is guarded by bytes.is_ascii(); the else branch returns CharsetError
-            sts = T.stmts(body, {})
-            ifs = [s for s in T.stmt_walk(sts) if s[0] == "if"]
-            okg = len(ifs) == 1 and ifs[0][1][0] == "call" and ifs[0][1][1].endswith("is_ascii") and ifs[0][1][2][0][:2] == ("var", "bytes")
-            if okg:
-                then_push = any(any(c[1].endswith("push_str") or c[1] in followed for c in T.sx_walk(x) if isinstance(c, tuple) and c and c[0] == "call") for s in T.stmt_walk(ifs[0][2]) for x in T.stmt_exprs(s))
-                else_err = any(s[0] == "return" for s in T.stmt_walk(ifs[0][3]))
-                okg = then_push and else_err
-            ok = ok and okg
-        obs.append(Ob(r, "eci:%d" % v, ok, "ECI %d passes exactly the validated bytes through (str::from_utf8(bytes) pushed unchanged%s)" % (v, ", gated by is_ascii" if v == 27 else ""),
-                      site=T.span_str(arm["span"]), detail=callees.get(v)))
+        bad = None
+        try:
+            for utf8_ok in (True, False):
+                for ascii_ok in (True, False):
+                    pushed, err = arm_run(v, utf8_ok, ascii_ok)
+                    accept = utf8_ok and (ascii_ok or v == 26)
+                    want = (["str(bytes)"], None) if accept else ([], "CharsetError")
+                    if ([str(x) for x in pushed], err) != want and bad is None:
+                        bad = "ECI %d chunk (valid utf8: %s, ascii: %s): pushes %r and returns %s; expected %r" % (v, utf8_ok, ascii_ok, [str(x) for x in pushed], err or "Ok", want)
+        except (T.Undecidable, T.Trap) as ex:
+            bad = "cannot decide: the arm does not fold (%s)" % ex
+        ok = bad is None and only_transformers(v, [])
+        obs.append(Ob(r, "eci:%d" % v, ok, "ECI %d passes exactly the validated bytes through (str::from_utf8(bytes) pushed unchanged, CharsetError otherwise%s)" % (v, "; only ASCII bytes accepted" if v == 27 else ""),
+                      site=T.span_str(arm["span"]), detail=bad or callees.get(v)))
     # every other ECI goes to the extension hook (never silently to a wrong table)
     other = [v for v in dom if v not in (0, 3, 11, 13, 26, 27)]
     bad = [v for v in other if not has(v, "convert_chunk_extended") or not only_transformers(v, ["convert_chunk_extended"])]
